@@ -78,10 +78,42 @@ func checkLabelSlots(c *Ctx, updater *ssa.Function, tableFn *ssa.Function, rotat
 			}
 		}
 		var seatList *Sym
+		// (position in the seat list + dealer seat) % seat count
+		isSlotSeat := func(seat *Sym) bool {
+			seat = seat.Strip()
+			if !(seat.Kind == "binop" && seat.Name == "%" && symIsParam(seat.Args[1], maxSeat)) {
+				return false
+			}
+			sum := seat.Args[0].Strip()
+			if sum.Kind == "binop" && sum.Name == "+" {
+				x, y := sum.Args[0].Strip(), sum.Args[1].Strip()
+				for k := 0; k < 2; k++ {
+					if isGetter(y, "Dealer") && fullRange(x, func(z *Sym) bool { return z.IsCall("SeatManager.ListPlayerSeatsFromDealer") }) {
+						return true
+					}
+					x, y = y, x
+				}
+			}
+			return false
+		}
 		atom := func(g Guard) (string, bool, bool) {
 			s := g.Cond.Strip()
 			if cm := g.AsCmp(); cm != nil {
 				l, r := cm.L.Strip(), cm.R.Strip()
+				// seat == dealer / SB / BB seat, spelled as comparisons
+				if cm.Op == token.EQL || cm.Op == token.NEQ {
+					a, b := l, r
+					for k := 0; k < 2; k++ {
+						if isSlotSeat(a) {
+							for _, w := range []string{"Dealer", "SB", "BB"} {
+								if isGetter(b, w) {
+									return "is-" + w + "-seat", cm.Op == token.EQL, true
+								}
+							}
+						}
+						a, b = b, a
+					}
+				}
 				if r.IsNil() && l.Kind == "index" && l.Args[0].IsCall("SeatManager.ListPlayerSeatsFromDealer") && fullRange(l.Args[1], func(x *Sym) bool { return x.IsCall("SeatManager.ListPlayerSeatsFromDealer") }) {
 					seatList = l
 					return "occupied", cm.Op == token.NEQ, cm.Op == token.NEQ || cm.Op == token.EQL
@@ -143,15 +175,20 @@ func checkLabelSlots(c *Ctx, updater *ssa.Function, tableFn *ssa.Function, rotat
 				}
 				return n
 			}
-			d = tableCheck(body, atom, []string{"button-seat", "occupied", "active"},
-				func(a map[string]bool) bool { return a["active"] && !a["occupied"] },
+			d = tableCheck(body, atom, []string{"button-seat", "is-Dealer-seat", "is-SB-seat", "is-BB-seat", "occupied", "active"},
+				func(a map[string]bool) bool {
+					// "one of the three button seats" is the disjunction of the three comparisons
+					return (a["active"] && !a["occupied"]) || a["button-seat"] != (a["is-Dealer-seat"] || a["is-SB-seat"] || a["is-BB-seat"])
+				},
 				map[string]func(bodyPath) bool{
 					"count the seat as a position slot": func(bp bodyPath) bool { return count(bp) >= 1 },
 					"count the seat twice":              func(bp bodyPath) bool { return count(bp) >= 2 },
 				},
 				map[string]func(map[string]bool) bool{
-					"count the seat as a position slot": func(a map[string]bool) bool { return a["button-seat"] || (a["occupied"] && a["active"]) },
-					"count the seat twice":              func(a map[string]bool) bool { return false },
+					"count the seat as a position slot": func(a map[string]bool) bool {
+						return a["button-seat"] || a["is-Dealer-seat"] || a["is-SB-seat"] || a["is-BB-seat"] || (a["occupied"] && a["active"])
+					},
+					"count the seat twice": func(a map[string]bool) bool { return false },
 				})
 		}
 		_ = seatList
@@ -248,6 +285,19 @@ func checkLabelSlots(c *Ctx, updater *ssa.Function, tableFn *ssa.Function, rotat
 		s := g.Cond.Strip()
 		if cm := g.AsCmp(); cm != nil {
 			l, r := cm.L.Strip(), cm.R.Strip()
+			if cm.Op == token.EQL || cm.Op == token.NEQ {
+				a, b := l, r
+				for k := 0; k < 2; k++ {
+					if isSeat(a) {
+						for _, w := range []string{"Dealer", "SB"} {
+							if isGetter(b, w) {
+								return "seat-is-" + w, cm.Op == token.EQL, true
+							}
+						}
+					}
+					a, b = b, a
+				}
+			}
 			switch {
 			case r.IsNil() && isSeatPlayer(l) && (cm.Op == token.NEQ || cm.Op == token.EQL):
 				return "occupied", cm.Op == token.NEQ, true
@@ -275,6 +325,11 @@ func checkLabelSlots(c *Ctx, updater *ssa.Function, tableFn *ssa.Function, rotat
 			return "known-player", g.Val, true
 		case s.IsCall("SeatPlayer.Active") && isSeatPlayer(s.Args[0]):
 			return "active", g.Val, true
+		case s.Kind == "call" && s.Call != nil && s.Call.Common().StaticCallee() != nil && isContainsHelper(p, s.Call.Common().StaticCallee()) && len(s.Args) == 2 && isHead(s.Args[0]):
+			if k, isK := s.Args[1].ConstString(); isK && (k == "dealer" || k == "sb") {
+				return "head-is-" + k, g.Val, true
+			}
+			return "", false, false
 		case s.IsCall("funk.Contains") && len(s.Args) == 2:
 			if isHead(s.Args[0]) {
 				if k, isK := s.Args[1].ConstString(); isK && k == "dealer" {
@@ -353,9 +408,9 @@ func checkLabelSlots(c *Ctx, updater *ssa.Function, tableFn *ssa.Function, rotat
 			return n
 		}
 		eligible := func(a map[string]bool) bool { return a["seat-exists"] && a["occupied"] && a["active"] }
-		d = tableCheck(body, atom, []string{"seat-exists", "occupied", "active", "known-player", "in-range", "head-is-dealer", "head-is-sb", "dead-seat", "no-label-left"},
+		d = tableCheck(body, atom, []string{"seat-exists", "occupied", "active", "known-player", "in-range", "head-is-dealer", "head-is-sb", "dead-seat", "seat-is-Dealer", "seat-is-SB", "no-label-left"},
 			func(a map[string]bool) bool {
-				return (a["active"] && !a["occupied"]) || !a["in-range"] || (a["head-is-dealer"] && a["head-is-sb"] && false)
+				return (a["active"] && !a["occupied"]) || !a["in-range"] || a["dead-seat"] != (a["seat-is-Dealer"] || a["seat-is-SB"])
 			},
 			map[string]func(bodyPath) bool{
 				"give the head label to the seat's player": func(bp bodyPath) bool { return bp.Blocks[store.Instr.Block()] },
@@ -366,7 +421,7 @@ func checkLabelSlots(c *Ctx, updater *ssa.Function, tableFn *ssa.Function, rotat
 			map[string]func(map[string]bool) bool{
 				"give the head label to the seat's player": func(a map[string]bool) bool { return eligible(a) && a["known-player"] },
 				"consume the head label": func(a map[string]bool) bool {
-					return (eligible(a) && a["known-player"]) || (a["seat-exists"] && !(a["occupied"] && a["active"]) && (a["head-is-dealer"] || a["head-is-sb"]) && a["dead-seat"])
+					return (eligible(a) && a["known-player"]) || (a["seat-exists"] && !(a["occupied"] && a["active"]) && (a["head-is-dealer"] || a["head-is-sb"]) && (a["dead-seat"] || a["seat-is-Dealer"] || a["seat-is-SB"]))
 				},
 				"consume two labels": func(a map[string]bool) bool { return false },
 				"leave the loop":     func(a map[string]bool) bool { return a["no-label-left"] },
@@ -382,4 +437,45 @@ func symType(s *Sym) string {
 		return ""
 	}
 	return typeShort(s.V.Type())
+}
+
+// isContainsHelper: a repository function (list []string, target string) bool whose body is a membership test —
+// it returns the constant true only on a path where an element of the list was compared equal to the target,
+// and the constant false otherwise.
+func isContainsHelper(p *Prog, f *ssa.Function) bool {
+	if f == nil || !p.IsRepoFunc(f) || len(f.Params) != 2 || typeShort(f.Params[0].Type()) != "[]string" || typeShort(f.Params[1].Type()) != "string" ||
+		f.Signature.Results().Len() != 1 || typeShort(f.Signature.Results().At(0).Type()) != "bool" {
+		return false
+	}
+	nTrue, nFalse := 0, 0
+	for _, b := range f.Blocks {
+		for _, in := range b.Instrs {
+			r, ok := in.(*ssa.Return)
+			if !ok {
+				continue
+			}
+			v, isB := p.Sym(r.Results[0]).ConstBool()
+			if !isB {
+				return false
+			}
+			eq := cmpHolds(p.Guards(r), func(l, rr *Sym, op token.Token) bool {
+				l, rr = l.Strip(), rr.Strip()
+				a := (l.Kind == "index" && symIsParam(l.Args[0], f.Params[0]) && symIsParam(rr, f.Params[1])) ||
+					(rr.Kind == "index" && symIsParam(rr.Args[0], f.Params[0]) && symIsParam(l, f.Params[1]))
+				return a && op == token.EQL
+			})
+			if v {
+				nTrue++
+				if !eq {
+					return false
+				}
+			} else {
+				nFalse++
+				if eq {
+					return false
+				}
+			}
+		}
+	}
+	return nTrue == 1 && nFalse >= 1
 }
